@@ -712,6 +712,9 @@ def check(ctx):
     from .c03 import swap_then_notify as _stn1
     for _c in ("GeckoStructure", "GeckoAsyncStructure"):
         _stn1(ctx.borrowed("R11", "C03", key_contains="::splice::"), repo, _c)
+    ctx.rule("R12", "segments arrive as sent: on both stacks the receive side hands a datagram on byte for byte (model socket / datagram_received callback, probed with content that begins and ends in whitespace and NUL bytes) - the awaitable client re-injects unwrapped BINARY content through the same callback, so a clean-up that is harmless for `<PACKT>` frames shortens a block segment ending in 0x20 / 0x0a and every later byte of the transfer lands at a lower offset, reported as success")
+    from ..enginemodel import receive_paths_verbatim
+    receive_paths_verbatim(ctx, repo, "R12", skip=("longest-update",))   # block segments are short: the buffer size is C05's clause
     async_assembly(ctx, repo)
     # the completed assembler keeps its segment list until the engine's clean-up removes the handler: the engine must
     # not dispatch a second datagram before that (engine model, vlib/enginemodel.py)
@@ -732,6 +735,21 @@ def check(ctx):
         m_ = repo.method(*q_.split("."), required=False)
         if m_ is not None:
             allowed.add(m_.qual)
-    ctx.ob("R3", "who-may-install", set(callers) <= allowed, f"status block also installed from {sorted(set(callers) - allowed)}")
+    # ... and a helper that only those operations call (an operation split into a wrapper and its body) installs on
+    # their behalf: every caller of it, up the call graph, is one of the allowed operations
+    from ..callgraph import callgraph as _cg3
+    cg3 = _cg3(repo)
+    called_by = {}
+    for f_ in repo.all_functions():
+        for c_ in cg3.callees(f_):
+            called_by.setdefault(c_.qual, set()).add(f_.qual)
+
+    def _on_behalf(q, depth=3):
+        if q in allowed:
+            return True
+        cb = called_by.get(q, set()) - {q}
+        return depth > 0 and bool(cb) and all(_on_behalf(x, depth - 1) for x in cb)
+    extra = sorted(q for q in set(callers) if not _on_behalf(q))
+    ctx.ob("R3", "who-may-install", not extra, f"status block also installed from {extra}")
     ctx.assume("STATU/STATV encode/decode layout agreement is decided under C04")
     ctx.note("Not decided: success under concrete loss/duplication/re-order/delay patterns; delayed segments of an earlier transfer accepted by a later one; the sync stack's timeout-driven resend (GeckoUdpProtocolHandler.loop) does not reset the assembly and self-heals through the out-of-sequence path (documented residual).")
